@@ -23,7 +23,7 @@ def setup(E, d=1, m=1, B=1, noise='diagonal', sde_type='ito', N=4, levy='space-t
     """Build a generic user SDE (jets), wrap it with the real ForwardSDE and create a Brownian stub."""
     tensor.reset_state()
     tensor.STATE['engine'] = E
-    poly.configure(weights={'eps': ('eps', 1)}, limits={'eps': N, 'eta': eta_limit}, relations={'s': (2, {'h': 1})})
+    poly.configure(weights={'eps': ('eps', 1)}, limits={'eps': N, 'eta': eta_limit}, relations={'s': (2, {'h': 1}), 's2': (2, {'h2': 1})})
     S = JSetup()
     S.E = E
     S.cx = Ctx(E, [])
@@ -34,7 +34,8 @@ def setup(E, d=1, m=1, B=1, noise='diagonal', sde_type='ito', N=4, levy='space-t
     S.s = Poly.var('s')
     S.t0 = Poly.var('t0')
     S.dt = S.h * eps * eps
-    tensor.STATE['sqrt_table'] = [(S.dt, S.s * eps)]
+    S.dt2 = Poly.var('h2') * eps * eps          # a second, unrelated step size (warm-up step of the history-independence obligation)
+    tensor.STATE['sqrt_table'] = [(S.dt, S.s * eps), (S.dt2, Poly.var('s2') * eps)]
     S.base_y = H.sym_array('y0', (B, d))
     S.f = jets.JetFunction('f', d, (d,), S.t0, S.base_y, tdep=tdep)
     if noise == 'diagonal':
@@ -71,10 +72,13 @@ def setup(E, d=1, m=1, B=1, noise='diagonal', sde_type='ito', N=4, levy='space-t
     return S
 
 
-def run_step(S, method, options=None):
+def run_step(S, method, options=None, warmup=False):
     E, cx = S.E, S.cx
     solver = H.make_solver(E, cx, method, S.sde, S.bm, options=options)
     extra = E.call(E.get_attr(solver, 'init_extra_solver_state', cx, 0), [S.t0, S.y0], {}, cx, 0)
+    if warmup:
+        # a previous step of a different length on the same solver object must not influence the next one
+        E.call(E.get_attr(solver, 'step', cx, 0), [S.t0, S.t0 + S.dt2, S.y0, extra], {}, cx, 0)
     y1, extra1 = E.call(E.get_attr(solver, 'step', cx, 0), [S.t0, S.t0 + S.dt, S.y0, extra], {}, cx, 0)
     order = E.get_attr(solver, 'strong_order', cx, 0)
     return solver, y1, extra1, order
